@@ -80,7 +80,7 @@ func gen(t *rapid.T) Case {
 	c := Case{}
 	c.Src = rapid.SliceOfN(rapid.IntRange(-20, 20), 0, 50).Draw(t, "src")
 	c.SrcKind = rapid.SampledFrom([]string{"slice", "json"}).Draw(t, "kind")
-	n := rapid.IntRange(0, 4).Draw(t, "depth")
+	n := rapid.SampledFrom([]int{0, 1, 2, 2, 3, 3, 4, 4}).Draw(t, "depth")
 	for i := 0; i < n; i++ {
 		k := rapid.SampledFrom([]string{"map", "filter", "limit", "limit"}).Draw(t, "op")
 		var a int
